@@ -40,10 +40,25 @@ func ParseDateTime(value string) (DateTime, error) {
 	value = strings.TrimPrefix(value, "@")
 	for _, l := range dateTimeLayouts {
 		if t, err = time.Parse(l, value); err == nil {
-			return DateTime{t, layout(l)}, nil
+			return DateTime{fixedOffset(t), layout(l)}, nil
 		}
 	}
 	return DateTime{}, fmt.Errorf("unable to parse DateTime '%s': %w", value, err)
+}
+
+// fixedOffset detaches a parsed time from the zone of the process. time.Parse
+// returns a time in time.Local when the written offset is one the local zone
+// uses; calendar arithmetic on it would then follow that zone's daylight-saving
+// rules and change the offset. The value keeps the offset it was written with.
+func fixedOffset(t time.Time) time.Time {
+	if t.Location() != time.Local {
+		return t
+	}
+	_, offset := t.Zone()
+	if offset == 0 {
+		return t.UTC()
+	}
+	return t.In(time.FixedZone("", offset))
 }
 
 // MustParseDateTime returns a DateTime if the string represents a
